@@ -1,6 +1,10 @@
 import Indi.Properties.C01
-#print axioms Indi.Sys.C01_link_handshake
-#print axioms Indi.Sys.C01_link_wf
-#print axioms Indi.Sys.C01_link_emitted
-#print axioms Indi.Sys.C01_link_wire
-#print axioms Indi.Cli.C15_stream
+#print axioms Indi.Sys.C01_start
+#print axioms Indi.Sys.C01_step
+#print axioms Indi.Sys.C01_invariant
+#print axioms Indi.Sys.C01_converges
+#print axioms Indi.Sys.C01_needs_format
+#print axioms Indi.Sys.C01_needs_distinct_elements
+#print axioms Indi.Sys.C01_needs_assign_format
+#print axioms Indi.Sys.C01_needs_write_format
+#print axioms Indi.Sys.C01_needs_dict_mirror
